@@ -29,4 +29,4 @@ DELIVERABLES, all written into the directory {wt}/SEED/ (create it):
   - patch.diff : output of `git -C {wt} diff -- glotaran` (your change, applicable with `git apply` to a clean checkout)
   - demo.py    : a small standalone program (run as `cd <checkout> && /venv/bin/python SEED/demo.py` or with a path argument - make it import glotaran from the current working directory) that exits 0 and prints PASS on the UNCHANGED code and exits 1 and prints FAIL on the changed code, demonstrating the property violation through the public API / the functions named in the hint. Verify BOTH: with your change applied it fails; on the clean tree it passes. IMPORTANT: do NOT use `git stash` (the stash is shared with other worktrees of this repository and will be clobbered); instead save your change with `git -C {wt} diff -- glotaran > {wt}/SEED/patch.diff`, revert it with `git -C {wt} apply -R {wt}/SEED/patch.diff`, run the demo on the clean tree, then re-apply it with `git -C {wt} apply {wt}/SEED/patch.diff`.
   - notes.md   : 5-15 lines: what you changed, why the existing tests do not notice, what exactly is needed for the violation to manifest, and the commands you ran with their outcomes (full test-suite result line included).
-Leave the worktree with your change applied (uncommitted). Do not commit. When finished, reply with a short summary (what the change is, which function(s), what triggers it, test-suite result line).""")
+Leave the worktree with your change applied (uncommitted). Do not commit. When finished, reply with a short summary (what the change is, which function(s), what triggers it, test-suite result line). If, while exploring, you notice that the UNCHANGED code already violates the property for some input or sequence you can show, add a short section 'clean-code observations' with the exact reproduction to notes.md and to your summary (do not build your seed on it).""")
